@@ -326,6 +326,6 @@ static void finalize(const Plan &plan, EndReason r) {
     }
 }
 
-static struct Reg { Reg() { register_family(Family{"dns", gen, setup, finalize, nullptr, nullptr}); } } reg;
+static struct Reg_dns { Reg_dns() { register_family(Family{"dns", gen, setup, finalize, nullptr, nullptr}); } } reg;
 
 }  // namespace xs
